@@ -328,7 +328,7 @@ Proof.
     + destruct K3 as (_&_&_&_&->). assumption.
     + destruct K3 as (_&_&_&_&->). intros U j0. unfold upd. destruct (Z.eqb_spec j0 j); auto.
     + assumption.
-    + intros k0 K0. destruct (HS k0) as (_&B&C&D&_); [subst key; lia|]. unfold hids_ok. rewrite B, C, D. auto.
+    + intros k0 K0. destruct (HS k0) as (_&B&C&D&_); [subst key; lia|]. unfold hids_ok. rewrite B, C, D. apply (dy_userh k0 K0).
     + intros Q. destruct (dy_act Q) as (X & (v & V1 & V2) & W). split; [assumption|]. split.
       * exists v. rewrite (kctl_open _ _ _ K3). tauto.
       * destruct W as [W|W]; [left; assumption|right; eapply pipe_ok_kctl; eassumption].
